@@ -24,6 +24,14 @@ fn gen(seed: u64, idx: u64, _tier: Tier) -> Plan {
         // requests are answered nor that a reply is no longer than its request
         s.fault_pct = *rng.pick(&[10i64, 50]);
     }
+    // one run in eight boots the repository's own main() under a seeded combination of the
+    // settings that shape the process around the workers
+    let full = idx % 8 == 6;
+    if full {
+        plan.scenario = "c07.storm_full_process".into();
+        s.workers = *rng.pick(&[1i64, 1, 2, 3]);
+        process_settings(&mut rng, &mut s);
+    }
     world_knobs(&mut rng, &mut plan, false);
     if rng.chance(1, 4) {
         // transient send_to / recv_from errors: what the worker does right after one must not
@@ -32,7 +40,7 @@ fn gen(seed: u64, idx: u64, _tier: Tier) -> Plan {
         plan.world.faults.recv_err = *rng.pick(&[0u32, 30]);
     }
     let sockets = 1 + rng.below(24) as u32;
-    let mut t = 6000;
+    let mut t = if full { 25_000 } else { 6000 };
     if idx % 4 == 3 {
         // full batches of maximum depth: many valid requests at once, with oversized nonces mixed in
         s.batch_size = 64;
